@@ -13,15 +13,13 @@
 (defun add-parameters (params args env)
   ""
   (if params
-      (let (first-param (car params)
-            rest-params (cdr params)
-            first-arg   (car args)
-            rest-args   (cdr args))
-        (if (= first-param '&)
-            (cons (cons (car rest-params) args)
-                  env)
-            (cons (cons first-param first-arg)
-                  (add-parameters rest-params rest-args env))))
+      (if (= (car params) '&)
+          (cons (cons (car (cdr params)) args)
+                env)
+          (add-parameters (cdr params)
+                          (cdr args)
+                          (cons (cons (car params) (car args))
+                                env)))
       env))
 
 (defun highlight-list-elem (elems n)
